@@ -420,9 +420,24 @@ def reflex_midpoint(repo: Repo) -> RuleRun:
             return c(x)
         return x if isinstance(x, (Rat, Vec)) else None
 
+    class Inf(Rat):
+        """tan(pi / 2) in exact arithmetic: only ever divided by (x / Inf = 0)"""
+
+    INF = Inf(Poly.const(1))
+
     def binop(op, a, b):
         if not (isinstance(a, (Rat, Vec)) or isinstance(b, (Rat, Vec))):
             return NO_MATCH
+        if isinstance(b, Inf):
+            if isinstance(op, ast.Div):
+                a0 = coerce(a)
+                if isinstance(a0, Vec):
+                    return a0.scale(c(0))
+                if isinstance(a0, Rat) and not isinstance(a0, Inf):
+                    return c(0)
+            raise NotEvaluable("tan(pi/2) used otherwise than as a divisor")
+        if isinstance(a, Inf):
+            raise NotEvaluable("tan(pi/2) used otherwise than as a divisor")
         a, b = coerce(a), coerce(b)
         if a is None or b is None:
             raise NotEvaluable("exact and floating-point quantities mixed")
@@ -446,25 +461,35 @@ def reflex_midpoint(repo: Repo) -> RuleRun:
     centre = Vec((c(2), c(Fraction(-5, 3)), c(Fraction(1, 9))))
     n = 0
     wrong: List[str] = []
-    for t in (Fraction(3, 4), Fraction(4, 3), Fraction(5, 12), Fraction(12, 5), Fraction(8, 15), Fraction(15, 8)):
-        hyp = Fraction(math.isqrt((t.numerator**2 + t.denominator**2)), t.denominator)  # sqrt(1 + t^2)
-        cos_h, sin_h = 1 / hyp, t / hyp
-        cos_a, sin_a = (1 - t * t) / (1 + t * t), 2 * t / (1 + t * t)
-        alpha = 2 * math.atan(float(t))
-        for radius in (Fraction(3, 7), Fraction(25)):
-            p1 = centre + e1.scale(c(radius))
-            for label, angle, end_sign, half in (
+    for t in (Fraction(3, 4), Fraction(4, 3), Fraction(5, 12), Fraction(12, 5), Fraction(8, 15), Fraction(15, 8), None):
+        if t is None:
+            # half a turn: the centre is the middle of the chord, tan(angle / 2) is infinite (1.6e16 in floating point). In exact
+            # arithmetic 1 / tan = 0; a construction that then normalises a vector which is exactly zero (0 / 0) returns NaN or
+            # rounding noise for every sector of (nearly) half a turn - a Revolve by pi
+            cos_h, sin_h, cos_a, sin_a, alpha = Fraction(0), Fraction(1), Fraction(-1), Fraction(0), math.pi
+            scenarios = (("half turn, counter-clockwise", math.pi, 1, (Fraction(0), Fraction(1))), ("half turn, clockwise", -math.pi, 1, (Fraction(0), Fraction(-1))))
+        else:
+            hyp = Fraction(math.isqrt((t.numerator**2 + t.denominator**2)), t.denominator)  # sqrt(1 + t^2)
+            cos_h, sin_h = 1 / hyp, t / hyp
+            cos_a, sin_a = (1 - t * t) / (1 + t * t), 2 * t / (1 + t * t)
+            alpha = 2 * math.atan(float(t))
+            scenarios = (
                 ("minor, counter-clockwise", alpha, 1, (cos_h, sin_h)),
                 ("minor, clockwise", -alpha, -1, (cos_h, -sin_h)),
                 ("reflex, clockwise", alpha - 2 * math.pi, 1, (-cos_h, -sin_h)),
                 ("reflex, counter-clockwise", 2 * math.pi - alpha, -1, (-cos_h, sin_h)),
-            ):
+            )
+        for radius in (Fraction(3, 7), Fraction(25)):
+            p1 = centre + e1.scale(c(radius))
+            for label, angle, end_sign, half in scenarios:
                 p2 = centre + e1.scale(c(radius * cos_a)) + e2.scale(c(radius * sin_a * end_sign))
                 want = centre + e1.scale(c(radius * half[0])) + e2.scale(c(radius * half[1]))
-                tan_half = Fraction(round(math.tan(angle / 2) * 10**9), 10**9)
-                exact_tan = t if math.tan(angle / 2) > 0 else -t
-                if abs(float(exact_tan) - math.tan(angle / 2)) > 1e-9:
-                    raise AnalysisError("internal: half-angle tangent of the scenario is inconsistent")
+                if t is None:
+                    exact_tan = "inf"
+                else:
+                    exact_tan = t if math.tan(angle / 2) > 0 else -t
+                    if abs(float(exact_tan) - math.tan(angle / 2)) > 1e-9:
+                        raise AnalysisError("internal: half-angle tangent of the scenario is inconsistent")
 
                 def hook(ev, call: ast.Call, name, exact_tan=exact_tan):
                     nm = (name or "").split(".")[-1]
@@ -483,8 +508,15 @@ def reflex_midpoint(repo: Repo) -> RuleRun:
                             return a.cross(b) if nm == "cross" else a.dot(b)
                     if nm == "tan" and call.args:
                         v = ev.eval(call.args[0])
-                        if isinstance(v, float) and abs(math.tan(v) - float(exact_tan)) < 1e-9:
-                            return c(exact_tan)
+                        if exact_tan == "inf":
+                            if isinstance(v, float) and abs(abs(v) - math.pi / 2) < 1e-12:
+                                return INF
+                            raise NotEvaluable("tan of something else than the half sector angle")
+                        if isinstance(v, float):
+                            # tan of +-(half the sector angle) (+ k*pi) and of its complement are exact rationals of the model as well
+                            for cand in (exact_tan, -exact_tan, 1 / exact_tan, -1 / exact_tan):
+                                if abs(math.tan(v) - float(cand)) < 1e-9 * max(1.0, abs(float(cand))):
+                                    return c(cand)
                         raise NotEvaluable("tan of something else than the half sector angle")
                     if nm == "linspace" and len(call.args) >= 2:
                         a, b = ev.eval(call.args[0]), ev.eval(call.args[1])
@@ -500,6 +532,13 @@ def reflex_midpoint(repo: Repo) -> RuleRun:
                         v = ev.eval(call.args[0])
                         if isinstance(v, float):
                             return abs(v)
+                    if nm == "sign" and len(call.args) == 1:
+                        v = ev.eval(call.args[0])
+                        if isinstance(v, (int, float)) and not isinstance(v, bool):
+                            return c(1 if v > 0 else (-1 if v < 0 else 0))
+                        if isinstance(v, Rat) and const_value(v) is not None:
+                            x = const_value(v)
+                            return c(1 if x > 0 else (-1 if x < 0 else 0))
                     return NO_MATCH
 
                 ev = Evaluator(repo=repo, module=fn.module, call_hook=hook, bind={"np.pi": math.pi, "numpy.pi": math.pi, "math.pi": math.pi})
@@ -515,6 +554,18 @@ def reflex_midpoint(repo: Repo) -> RuleRun:
                     continue
                 except NotEvaluable as err:
                     raise AnalysisError(f"arc_from_theta not evaluable over exact rational vectors ({label}, t={t}): {err}") from err
+                except AnalysisError as err:
+                    if t is None and "division by zero" in str(err):
+                        r.bad(
+                            fn,
+                            f"arc_from_theta, {label}, radius {radius}: at half a turn the construction divides by a quantity that is exactly zero (it normalises the vector from the centre to a point "
+                            "that coincides with the centre): in floating point the result is NaN or rounding noise - Vertex([0.3,0,0]) to Vertex([0,0.3,0]) with Angle(pi, [0,0,1]) gives (nan nan nan) "
+                            "and Revolve(face, pi, ...) cannot be assembled",
+                            fn.node,
+                            key=key,
+                        )
+                        continue
+                    raise
                 ok = isinstance(got, Vec) and all((a - b).is_zero() for a, b in zip(got.c, want.c))
                 where = ""
                 if isinstance(got, Vec) and not ok:
